@@ -325,19 +325,25 @@ class AsyncServer(base_server.BaseServer):
                 self._log_error_once(f'Invalid session {sid}', 'bad-sid')
                 r = self._bad_request(f'Invalid session {sid}')
             else:
-                socket = self._get_socket(sid)
                 try:
-                    await socket.handle_post_request(environ)
-                    r = self._ok(jsonp_index=jsonp_index)
-                except exceptions.EngineIOError:
-                    if sid in self.sockets:  # pragma: no cover
-                        await self.disconnect(sid)
-                    r = self._bad_request()
-                except:  # pragma: no cover
-                    # for any other unexpected errors, we log the error
-                    # and keep going
-                    self.logger.exception('post request handler error')
-                    r = self._ok(jsonp_index=jsonp_index)
+                    socket = self._get_socket(sid)
+                except KeyError as e:
+                    # the session was closed but not yet removed
+                    self._log_error_once(f'{e} {sid}', 'bad-sid')
+                    r = self._bad_request(f'{e} {sid}')
+                else:
+                    try:
+                        await socket.handle_post_request(environ)
+                        r = self._ok(jsonp_index=jsonp_index)
+                    except exceptions.EngineIOError:
+                        if sid in self.sockets:  # pragma: no cover
+                            await self.disconnect(sid)
+                        r = self._bad_request()
+                    except:  # pragma: no cover
+                        # for any other unexpected errors, we log the error
+                        # and keep going
+                        self.logger.exception('post request handler error')
+                        r = self._ok(jsonp_index=jsonp_index)
         elif method == 'OPTIONS':
             r = self._ok()
         else:
